@@ -262,12 +262,25 @@ def _shard(args):
         return {'ok': False, 'error': tb}
 
 
-def run_harness(prop, tier, seed, scale, hot):
+def run_harness(prop, tier, seed, scale, hot, timeout_s=None):
     nshards = 16 if (tier == 'thorough' or scale > 1) else 8
     nshards = min(nshards, os.cpu_count() or 1)
     args = [(prop, tier, seed, scale, hot, i, nshards) for i in range(nshards)]
+    timed_out = False
     with mp.Pool(nshards) as pool:
-        parts = pool.map(_shard, args)
+        if timeout_s is None:
+            parts = pool.map(_shard, args)
+        else:
+            # the failing-input search is bounded in wall time: the shards that finished in time are used
+            res = [pool.apply_async(_shard, (a,)) for a in args]
+            t_end = time.time() + timeout_s
+            parts = []
+            for r_ in res:
+                try:
+                    parts.append(r_.get(timeout=max(1.0, t_end - time.time())))
+                except mp.TimeoutError:
+                    timed_out = True
+            pool.terminate()
     agg = {'mism': [], 'n_mism': 0, 'pred_fail': [], 'n_pred_fail': 0, 'pred_count': 0, 'pred_classes': {},
            'case_classes': {}, 'n_cases': 0, 'samples': [], 'max_dev': {}, 'F_lines': 0, 'Q_lines': 0,
            'exhaustive': False, 'errors': [], 'distinct': 0, 'notes': [], 'known_counts': {}, 'overflow': 0,
@@ -300,6 +313,8 @@ def run_harness(prop, tier, seed, scale, hot):
         for s in p['samples']:
             if len(agg['samples']) < 12:
                 agg['samples'].append(s)
+    if timed_out:
+        agg['notes'].append('search stopped after %d s: %d of %d shards finished' % (timeout_s, len(parts), nshards))
     return agg
 
 
@@ -545,7 +560,9 @@ def main():
         # failing-input search: a much larger exploration of the property's predicates on the implementation
         searched = True
         log('[search] obligations/correspondence broken; searching the implementation for a failing input ...')
-        agg2 = run_harness(prop, tier, seed + 1, max(scale, 1.0) * (10.0 if tier == 'quick' else 4.0), hot)
+        agg2 = run_harness(prop, tier, seed + 1, max(scale, 1.0) * (10.0 if tier == 'quick' else 4.0), hot,
+                           timeout_s=float(os.environ.get('VERIF_SEARCH_TIMEOUT') or (600 if tier == 'quick' else 1800)))
+        agg['notes'] += [n_ for n_ in agg2['notes'] if n_.startswith('search stopped')]
         for f in agg2['pred_fail']:
             if not match_known(f, known, prop, mod):
                 new_fail.append(f)
